@@ -637,6 +637,7 @@ htp_status_t htp_tx_req_process_body_data_ex(htp_tx_t *tx, const void *data, siz
 
             if (data == NULL) {
                 // Shut down the decompressor, if we used one.
+                if (len > 0) HTP_VERIF_TRACE(8, tx->connp, tx, (long) len);
                 htp_tx_req_destroy_decompressors(tx->connp);
             }
             break;
@@ -994,6 +995,7 @@ htp_status_t htp_tx_res_process_body_data_ex(htp_tx_t *tx, const void *data, siz
 
             if (data == NULL) {
                 // Shut down the decompressor, if we used one.
+                if (len > 0) HTP_VERIF_TRACE(8, tx->connp, tx, (long) len);
                 htp_tx_res_destroy_decompressors(tx->connp);
             }
             break;
